@@ -1,7 +1,9 @@
 #!/venv/bin/python
 """Evaluate a seeded change:  tools/evalseed.py <seed dir with patch.diff + demo.py> <target Cxx> [pids to run ...]
 1. confirm in a scratch worktree that the suite passes with the change, the demo fails with it and passes without;
-2. apply the change to /repo, run the given checks (default: the target), undo it; report which checks raise a VIOLATION."""
+2. run the given checks (default: the target) against a scratch worktree carrying the change (EDGEGRAPH_REPO - /repo itself
+   is never touched), then once more against /repo so that /verif's generated file and evidence are those of the real tree;
+   report which checks raise a VIOLATION."""
 import json
 import os
 import subprocess
@@ -47,19 +49,19 @@ def main():
         sh(f"git -C {REPO} worktree remove --force {wt}")
     res["valid"] = bool(res.get("applies") and res.get("suite_passes") and res.get("demo_fails_with_change") and res.get("demo_clean_passes"))
     if res["valid"]:
-        rc, out = sh(f"git -C {REPO} status --porcelain")
-        if out.strip():
-            print("refusing: /repo is not clean", out)
-            sys.exit(2)
-        rc, out = sh(f"git -C {REPO} apply {patch}")
+        # the checks run against a scratch worktree carrying the change (EDGEGRAPH_REPO); /repo itself is not touched
+        wt2 = tempfile.mkdtemp(prefix="evalseed-run-", dir="/tmp")
+        os.rmdir(wt2)
+        sh(f"git -C {REPO} worktree add -q --detach {wt2} HEAD")
         try:
+            rc, out = sh(f"git apply {patch}", cwd=wt2)
+            env2 = dict(os.environ, EDGEGRAPH_REPO=wt2)
             res["checks"] = {}
             for pid in pids:
-                rc, out = sh(f"./check {pid} quick", cwd=VERIF, timeout=3600)
+                rc, out = sh(f"./check {pid} quick", cwd=VERIF, env=env2, timeout=3600)
                 lines = [l for l in out.splitlines() if l.startswith("VIOLATION") or l.startswith(f"[{pid}] tier")]
                 res["checks"][pid] = {"exit": rc, "violation": any(l.startswith("VIOLATION") for l in lines),
                                       "no_failing_input": any("no-failing-input-found" in l for l in lines), "lines": lines[:4]}
-                # keep the first replay's message
                 for l in lines:
                     if l.startswith("VIOLATION"):
                         rp = l.split("replay=")[1].split()[0]
@@ -70,7 +72,10 @@ def main():
                             pass
                         break
         finally:
-            sh(f"git -C {REPO} checkout -- .")
+            sh(f"git -C {REPO} worktree remove --force {wt2}")
+            # leave /verif's generated file, build and evidence as the real tree has them
+            for pid in pids:
+                sh(f"./check {pid} quick", cwd=VERIF, timeout=3600)
         res["detected_by"] = [p for p, r in res["checks"].items() if r["violation"]]
     print(json.dumps(res, indent=1))
 
